@@ -360,6 +360,107 @@ vs_atomic_thread_fence(memory_order mo) noexcept
 {
   ::vsched::fence(mo);
 }
+#ifdef VSCHED_SHIM_SMART_PTR
+// Reference-count operations of shared_ptr / weak_ptr are hidden synchronisation (atomic RMWs inside libstdc++ that the
+// rename of the std::atomic spellings does not reach). In the variants built with this define, the operations that read
+// or change a use count are scheduling points too: weak_ptr::lock / expired, shared_ptr reset / assignment / destruction
+// of an owning pointer. (`raw_expired` is the interpreter's point-free observation.)
+template <class T>
+class vs_shared_ptr : public shared_ptr<T>
+{
+  using B = shared_ptr<T>;
+  void
+  rmw_point() const noexcept
+  {
+    if (this->get() != nullptr && ::vsched::active()) {
+      ::vsched::pre_op(::vsched::kRmw, this->get());
+    }
+  }
+
+ public:
+  using B::B;
+  vs_shared_ptr() noexcept = default;
+  vs_shared_ptr(const B &b) noexcept : B(b) {}       // NOLINT
+  vs_shared_ptr(B &&b) noexcept : B(std::move(b)) {}  // NOLINT
+  vs_shared_ptr(const vs_shared_ptr &o) noexcept : B(static_cast<const B &>(o)) {}
+  vs_shared_ptr(vs_shared_ptr &&o) noexcept : B(static_cast<B &&>(o)) {}
+  vs_shared_ptr &
+  operator=(const vs_shared_ptr &o) noexcept
+  {
+    rmw_point();
+    B::operator=(static_cast<const B &>(o));
+    return *this;
+  }
+  vs_shared_ptr &
+  operator=(vs_shared_ptr &&o) noexcept
+  {
+    rmw_point();
+    B::operator=(static_cast<B &&>(o));
+    return *this;
+  }
+  ~vs_shared_ptr()
+  {
+    const void *p = this->get();
+    if (p != nullptr && ::vsched::active()) {
+      ::vsched::pre_op(::vsched::kRmw, p);
+      B::reset();
+      ::vsched::post_write(p, true, 0);
+    }
+  }
+  void
+  reset() noexcept
+  {
+    const void *p = this->get();
+    if (p != nullptr && ::vsched::active()) {
+      ::vsched::pre_op(::vsched::kRmw, p);
+      B::reset();
+      ::vsched::post_write(p, true, 0);
+    } else {
+      B::reset();
+    }
+  }
+};
+
+template <class T>
+class vs_weak_ptr : public weak_ptr<T>
+{
+  using B = weak_ptr<T>;
+
+ public:
+  using B::B;
+  vs_weak_ptr() noexcept = default;
+  vs_weak_ptr(const B &b) noexcept : B(b) {}                                                   // NOLINT
+  vs_weak_ptr(const vs_shared_ptr<T> &s) noexcept : B(static_cast<const shared_ptr<T> &>(s)) {}  // NOLINT
+  vs_weak_ptr(const vs_weak_ptr &) noexcept = default;
+  vs_weak_ptr(vs_weak_ptr &&) noexcept = default;
+  vs_weak_ptr &operator=(const vs_weak_ptr &) noexcept = default;
+  vs_weak_ptr &operator=(vs_weak_ptr &&) noexcept = default;
+  vs_shared_ptr<T>
+  lock() const noexcept
+  {
+    if (::vsched::active()) ::vsched::pre_op(::vsched::kRmw, this);
+    return vs_shared_ptr<T>{B::lock()};
+  }
+  bool
+  expired() const noexcept
+  {
+    if (::vsched::active()) {
+      ::vsched::pre_op(::vsched::kLoad, this);
+      ::vsched::note_read(this);
+    }
+    return B::expired();
+  }
+  bool raw_expired() const noexcept { return B::expired(); }
+};
+
+template <class T, class... A>
+inline vs_shared_ptr<T>
+vs_make_shared(A &&...a)
+{
+  return vs_shared_ptr<T>{make_shared<T>(std::forward<A>(a)...)};
+}
+#endif
+
 template <class T>
 using vs_hash = typename ::vsched::hash_sel<T>::type;
 namespace this_thread
@@ -407,5 +508,10 @@ vs_yield() noexcept
 #define sleep_until vs_sleep_until
 #define yield vs_yield
 #define hash vs_hash
+#ifdef VSCHED_SHIM_SMART_PTR
+#define shared_ptr vs_shared_ptr
+#define weak_ptr vs_weak_ptr
+#define make_shared vs_make_shared
+#endif
 #define _mm_pause() ::vsched::yield_hint()
 #define __builtin_ia32_pause() ::vsched::yield_hint()
